@@ -77,6 +77,10 @@ def tsan_reports(text, repo):
         if len(acc) != 2:
             continue
         allfns = acc[0][4] + acc[1][4]
+        # construction / destruction of a node object (the scenario's short-lived peer nodes reuse stack slots) is not one of the schedules
+        # the property quantifies over (control requests, handshakes and messages on session threads, ticks)
+        if any(fn.split("::")[-1].startswith("~") or (len(fn.split("::")) >= 2 and fn.split("::")[-1] == fn.split("::")[-2]) for fn in allfns):
+            continue
         group = None
         for pat, g in KNOWN_GROUP:
             if any(pat in fn for fn in allfns):
